@@ -86,6 +86,12 @@ func (r *Receiver) Receive(m Message, from uint16) {
 		if sender == r.SelfID {
 			return
 		}
+		// A sender cannot vouch for its own message: its acknowledgement says nothing
+		// about what it sent to the other parties.
+		if from == sender {
+			r.Logger.Warnf("Ignoring acknowledgement of %d about its own message", from)
+			return
+		}
 		r.Logger.Debugf("Got ack {sender: %d, digest: %s, round: %d} from %d",
 			sender, hex.EncodeToString(digest[:8]), msgRound, from)
 		r.registerMsg(msgReception{
